@@ -116,6 +116,12 @@ static void on_alarm(int) {
   int st; while (wait(&st) > 0) {}
   _exit(0);
 }
+static double wd_seconds = 0; static char wd_msg[200] = "";
+static void arm_watchdog() {
+  struct itimerval it; memset(&it, 0, sizeof it);
+  if (wd_seconds > 0) { it.it_value.tv_sec = (long)wd_seconds; it.it_value.tv_usec = (long)((wd_seconds - (long)wd_seconds) * 1e6); }
+  setitimer(ITIMER_VIRTUAL, &it, 0);
+}
 // returns true in the child. Parent either waits (sequential DFS) or continues concurrently when a slot is free.
 static bool fork_path() {
   fflush(stdout); fflush(stderr);
@@ -123,7 +129,7 @@ static bool fork_path() {
   if (sh->maxprocs > 1) { int a = __sync_add_and_fetch(&sh->active, 1); if (a <= sh->maxprocs) par = true; else __sync_sub_and_fetch(&sh->active, 1); }
   pid_t pid = fork();
   if (pid < 0) { perror("fork"); path_exit(3, "fork failed"); }
-  if (pid == 0) { detached = par; arm_timer(); return true; }
+  if (pid == 0) { detached = par; arm_timer(); arm_watchdog(); return true; }
   if (!par) { int st; waitpid(pid, &st, 0); if (!WIFEXITED(st) || WEXITSTATUS(st) != 0) note_crash(st); }
   return false;
 }
@@ -510,6 +516,8 @@ int __sym_choose(const char* name, int lo, int hi) {
 void __sym_fail(const char* msg) { path_exit(1, msg); }
 void __sym_prune(void) { path_exit(2, ""); }
 void __sym_check(int cond, const char* msg) { __sync_fetch_and_add(&sh->asserts, 1); my_asserts++; if (!cond) path_exit(1, msg); }
+static void on_vtalrm(int) { path_exit(1, wd_msg); }
+void __sym_watchdog(double cpu_seconds, const char* msg) { wd_seconds = cpu_seconds; snprintf(wd_msg, sizeof wd_msg, "%s", msg ? msg : "path did not terminate within its CPU-time watchdog"); signal(SIGVTALRM, on_vtalrm); arm_watchdog(); }
 void __sym_note(const char* msg) { fprintf(stderr, "[note] %s\n", msg); }
 void __sym_label(const char* msg) { choices->push_back(msg); cfg_update(); }
 int __sym_is_symbolic(double d) { return is_sym(d); }
